@@ -5,6 +5,7 @@ import os
 import shutil
 
 import flowgrid
+import flowstep
 import gen
 import mockca
 import vlib
@@ -27,11 +28,29 @@ FINISH = dict(
          "certificate URL, non-PEM / truncated / other-key certificate body) x {no pair, matching pair "
          "installed} x kp_reuse; quick: seeded sample + corpus, thorough: the whole grid + random "
          "two-fault scripts. Files are snapshotted before the attempt and when the post-operation hook runs; "
-         "Spec.C03.holds judges (initial, final, failed?). non-trivial = the fault fired.",
+         "Spec.C03.holds judges (initial, final, failed?); Model/Flow.attempt is run in lock-step on the answers "
+         "served (retries cut by Model/Http) and must reproduce the observed exchange / hook / write trace. "
+         "non-trivial = the fault fired.",
 )
 
 
+def lockstep(ctx, helper, results):
+    """Lock-step correspondence: Model/Flow.attempt, fed the answers actually served and the hook
+    results actually observed, must predict the observed event trace, result and final files."""
+    verdicts = flowstep.lockstep_many(results, helper)
+    for obs, v in zip(results, verdicts):
+        ctx.count("lockstep:" + v["status"])
+        if v["status"] == "differ":
+            ctx.disagreements += 1
+            ctx.broke("correspondence Model.Flow.attempt", v["detail"],
+                      {"sc": {k: x for k, x in obs["sc"].items() if k != "answer"}, "model": v.get("model"),
+                       "observed": v.get("observed")})
+        elif v["status"] == "inexpressible":
+            ctx.count("lockstep:inexpressible:" + str(v["detail"])[:40])
+
+
 def judge(ctx, helper, results):
+    lockstep(ctx, helper, results)
     jin, keep = [], []
     for obs in results:
         sc = obs["sc"]
@@ -92,9 +111,10 @@ def run(ctx):
         if ctx.quick():
             ctx.rng.shuffle(g)
             # always include the historical witnesses, then a seeded sample
-            must = [s for s in flowgrid.grid() if (s["fault"] in ("err:badCSR", "cert-not-pem", "cert-other-key", "drop")
-                                                   and s["pos"][0] in ("finalize", "cert", "order") and s["pair"])]
-            g = must[:16] + g[:110]
+            # download faults in all four (pair, kp_reuse) combinations, and a finalize error, always
+            must = [s for s in flowgrid.grid() if s["fault"] in ("cert-not-pem", "cert-other-key", "cert-truncated")
+                    or (s["fault"] in ("err:badCSR", "drop") and s["pos"][0] == "finalize")]
+            g = must + g[:100]
         scs = [dict(s, idx=i) for i, s in enumerate(corpus + g)]
         with concurrent.futures.ThreadPoolExecutor(max_workers=12) as ex:
             results = list(ex.map(lambda s: flowgrid.run_fault(s, root, helper), scs))
